@@ -28,7 +28,7 @@ PROPS = {
     },
     'C15': {
         'level': 'proof',
-        'units': ['system'],
+        'units': ['system', 'executor'],
         'kani': [],
         'trusted_base': [T_FELT, T_TOOLS],
         'not_decided': ['clk == u32::MAX (precondition clk < 2^32-1: a 2^32-row trace cannot be allocated)',
